@@ -305,6 +305,11 @@ def install(ctx):
 # ------------------------------------------------------------------------------------------- cases
 def gen_case(rng, tier, ctx, i):
     r = rng.random()
+    if rng.random() < 0.05:
+        # an option group of the configurator (3-5 alternatives, usually with a default) negated / implied / nested: still exactly-one / disjunction
+        from . import common
+        ctx.count("count:configurator-any-xor")
+        return {"route": "ctor", "recipe": common.cc_case(rng, boolean=True), "seed": rng.getrandbits(32)}
     if r < 0.25:
         return {"route": "cicJE", "rule": gen_cicje(rng)}
     if r < 0.33:
